@@ -215,7 +215,7 @@ func genC18() {
 		switch x := n.(type) {
 		case *ast.CallExpr:
 			switch f := exprString(x.Fun); f {
-			case "c.closeStream", "c.connectServerStream", "c.checkPendingBatch", "delete", "c.StartAccountSubscription":
+			case "c.closeStream", "c.connectServerStream", "c.checkPendingBatch", "delete", "c.StartAccountSubscription", "c.keepSubscriptions":
 				hs = append(hs, f)
 			}
 		case *ast.RangeStmt:
@@ -242,6 +242,10 @@ func genC18() {
 		case *ast.DeferStmt:
 			ca = append(ca, "defer "+exprString(x.Call))
 			return false
+		case *ast.IfStmt:
+			if cs := exprString(x.Cond); strings.Contains(cs, "ErrServerErrored") {
+				ca = append(ca, "if "+cs)
+			}
 		}
 		return true
 	})
@@ -282,7 +286,10 @@ func genC18() {
 				reaction = append(reaction, "if "+exprString(is.Cond))
 				ast.Inspect(is.Body, func(m ast.Node) bool {
 					if c, ok := m.(*ast.CallExpr); ok && strings.HasSuffix(exprString(c.Fun), "HandleServerShutdown") {
-						reaction = append(reaction, exprString(c))
+						reaction = append(reaction, c18NodeString(c))
+					}
+					if f, ok := m.(*ast.ForStmt); ok && f.Cond != nil {
+						reaction = append(reaction, "for "+c18NodeString(f.Cond))
 					}
 					if r, ok := m.(*ast.ReturnStmt); ok {
 						reaction = append(reaction, c18NodeString(r))
